@@ -1,4 +1,6 @@
 import RemocModel.Io.Progress
+import RemocModel.Io.Depth
+import RemocModel.Io.Fuel
 
 /-!
 # C18 — I/O channels deliver exactly the written bytes; short streams are errors
@@ -425,6 +427,143 @@ theorem short_sized_shutdown_is_error (cfg : Cfg) (s : State) (h : Reachable cfg
     · rw [hmode, hmo] at hm; cases hm
     · rw [hmode, hmo] at hm; cases hm
 
+/-! ### more about the size-verification state machine (thorough tier) -/
+
+/-- **The size is awaited only after the data stream has ended.**  Whenever the receiver is waiting
+for (or about to evaluate) the announced size, it has consumed every message, nothing is
+buffered, and the data port has ended: the race between the end of the data stream and the
+separately transmitted size cannot make it compare too early. -/
+theorem size_wait_after_data_end (cfg : Cfg) (s : State) (h : Reachable cfg s)
+    (hv : s.rx.phase = .verifying) :
+    s.ch.dataEnd ≠ .open ∧ s.ch.data = [] ∧ s.rx.buf = none ∧ s.rx.binRx = false := by
+  obtain ⟨h1, h2⟩ := end_reachable h
+  have hb := h2 hv
+  obtain ⟨a, b, c⟩ := h1 hb (by rw [hv]; simp)
+  exact ⟨a, b, c, hb⟩
+
+/-- **End-of-file is sticky**: after the end of file was verified every further read returns
+end-of-file again and changes nothing in the receiver, whatever happens to the sender or the
+connection. -/
+theorem eof_sticky (cfg : Cfg) (s : State) (h : Reachable cfg s) (n seg : Nat)
+    (hv : s.rx.eofVerified = true) (hu : rxUsable s.rx = true) :
+    ∃ s', stepOut cfg s (.read n seg) = some (.data [], s') ∧ s'.rx = s.rx ∧ s'.received = s.received := by
+  have hi := inv_reachable h
+  have hsh := shape_reachable h
+  have hp := pollRead_eof_sticky s.rx s.ch n seg (s.ch.data.length + 3) (rxFacts_of hi hsh) hv
+  simp only [stepOut, hu, if_true]
+  rw [show readFuel s.ch = s.ch.data.length + 3 + 1 from rfl, hp]
+  exact ⟨_, rfl, rfl, by simp [outBytes]⟩
+
+/-- **A short sized stream keeps failing**: once a sized receiver has seen the data stream end
+before the fixed size, every read returns `UnexpectedEof` again (the receiver stays usable and
+never turns the error into an end-of-file). -/
+theorem short_sized_error_sticky (cfg : Cfg) (s : State) (h : Reachable cfg s) (N n seg : Nat)
+    (hN : cfg.fixed = some N) (hlt : s.received.length < N)
+    (hend : s.rx.binRx = false) (hidle : s.rx.phase = .idle) (hu : rxUsable s.rx = true) :
+    ∃ s', stepOut cfg s (.read n seg) = some (.rxErr .unexpectedEof, s') ∧ s'.rx = s.rx := by
+  have hi := inv_reachable h
+  obtain ⟨h1, _⟩ := end_reachable h
+  obtain ⟨_, _, hbuf⟩ := h1 hend (by rw [hidle]; simp)
+  have hnv : s.rx.eofVerified = false := by
+    cases hv : s.rx.eofVerified with
+    | false => rfl
+    | true =>
+      rcases eof_only_when_complete cfg s h (Or.inl hv) with ⟨N', hN', h2, _⟩ | ⟨h1, _⟩
+      · rw [hN] at hN'; cases hN'; omega
+      · rw [hN] at h1; cases h1
+  have hp := pollRead_short_sticky s.rx s.ch n seg N (s.ch.data.length + 3) hidle hend hbuf hnv
+    (hi.rx.infoSized N hN) (by rw [hi.rx.br]; exact hlt)
+  simp only [stepOut, hu, if_true]
+  rw [show readFuel s.ch = s.ch.data.length + 3 + 1 from rfl, hp]
+  exact ⟨_, rfl, rfl⟩
+
+/-- **An ended stream is always decided.**  When the data port has ended and has been drained, and
+the size is fixed or the size channel has settled (announced, dropped with the sender, or lost
+with the connection), a read never stays pending: it returns end-of-file or an error. -/
+theorem ended_stream_decides (cfg : Cfg) (s : State) (h : Reachable cfg s) (n seg : Nat)
+    (hd : s.ch.data = []) (he : s.ch.dataEnd ≠ .open) (hheld : s.rx.held = [])
+    (hsz : s.ch.size ≠ .pending ∨ cfg.fixed.isSome) (hu : rxUsable s.rx = true) :
+    ∃ o s', stepOut cfg s (.read n seg) = some (o, s') ∧ (o = .data [] ∨ isRxErr o = true) := by
+  have hi := inv_reachable h
+  have hsh := shape_reachable h
+  have hsz' : s.ch.size ≠ .pending ∨ ∃ e, s.rx.sizeInfo = .determined e := by
+    rcases hsz with hsz | hsz
+    · exact Or.inl hsz
+    · cases hf : cfg.fixed with
+      | none => rw [hf] at hsz; cases hsz
+      | some N => exact Or.inr ⟨N, hi.rx.infoSized N hf⟩
+  have hp := pollRead_decides s.rx s.ch n seg s.ch.data.length (rxFacts_of hi hsh) hd he
+    (by simpa [Rx.held] using hheld) hsz'
+  obtain ⟨s', h1, _, _⟩ := read_result (cfg := cfg) (s := s) (n := n) (seg := seg) hu
+  rw [show readFuel s.ch = s.ch.data.length + 4 from rfl] at h1
+  exact ⟨_, s', h1, hp⟩
+
+/-- **Flush contract**: after a successful flush no chunk is in flight; if nothing was lost so far,
+every accepted byte is in the port, in the receiver's buffer, or already read. -/
+theorem flush_hands_over (cfg : Cfg) (s s' : State) (h : Reachable cfg s)
+    (hs : stepOut cfg s .flush = some (.done, s')) :
+    s'.tx.sending = none ∧
+    (s'.lossless = true → s'.accepted = s'.received ++ s'.rx.held ++ s'.ch.data.flatten) := by
+  have hi' := inv_reachable (reachable_step h hs)
+  have hsend : s'.tx.sending = none := by
+    simp only [stepOut, pollFlush] at hs
+    split at hs
+    · rcases hc : txComplete s.tx s.ch with ⟨e, t, c⟩
+      rw [hc] at hs
+      have := (txComplete_frame hc).2.2.2.1
+      cases e <;> (simp only [Option.some.injEq, Prod.mk.injEq] at hs; obtain ⟨_, rfl⟩ := hs; exact this)
+    · cases hs
+  refine ⟨hsend, fun hl => ?_⟩
+  have := hi'.acct.exact hl
+  simpa [Tx.inFlight, hsend] using this
+
+/-- **Shutdown contract, unsized**: a successful first shutdown announces exactly the number of
+bytes accepted, leaves no chunk in flight and ends the data stream; unless the connection was cut
+the announcement is on its way to the receiver. -/
+theorem shutdown_announces_total (cfg : Cfg) (s s' : State) (h : Reachable cfg s)
+    (hf : cfg.fixed = none) (hs : stepOut cfg s .shutdown = some (.done, s')) :
+    s'.announced = some s'.accepted.length ∧ s'.tx.sending = none ∧ s'.ch.dataEnd ≠ .open ∧
+    (s'.cutDone = false → s'.ch.size = .sent s'.accepted.length) := by
+  have hr' := reachable_step h hs
+  have hi' := inv_reachable hr'
+  have hsh' := shape_reachable hr'
+  -- after a successful shutdown the port is closed and the mode is `Known`
+  have hfacts : s'.tx.binOpen = false ∧ s'.tx.sending = none ∧ ∃ e, s'.tx.mode = .known e := by
+    simp only [stepOut] at hs
+    split at hs
+    · unfold pollShutdown at hs
+      rcases hc : txComplete s.tx s.ch with ⟨e, t, c⟩
+      rw [hc] at hs
+      have hsend := (txComplete_frame hc).2.2.2.1
+      cases e with
+      | some e => simp at hs
+      | none =>
+        simp only at hs
+        rcases hw : shutdownCore t c with ⟨e2, t2, c2⟩
+        rw [hw] at hs
+        have : t2.binOpen = false ∧ t2.sending = none ∧ ∃ e, t2.mode = .known e := by
+          rcases shutdownCore_cases t c with ⟨x, _, _, hr⟩ | ⟨x, _, _, hr⟩ | ⟨_, _, hr⟩ | ⟨_, _, hr⟩ <;>
+            (rw [hr] at hw; simp only [Prod.mk.injEq] at hw; obtain ⟨_, rfl, _⟩ := hw
+             exact ⟨rfl, hsend, _, rfl⟩)
+        cases e2 with
+        | none => simp only [Option.some.injEq, Prod.mk.injEq] at hs; obtain ⟨_, rfl⟩ := hs; exact this
+        | some e2 => simp at hs
+    · cases hs
+  obtain ⟨hbo, hsend, e, hmode⟩ := hfacts
+  obtain ⟨m, hm⟩ := hi'.tx.knownAnn hf e hmode
+  have hlen := (hi'.tx.ann m hm).1
+  subst hlen
+  exact ⟨hm, hsend, hsh'.ch.closedEnd hbo, fun hcut => hsh'.ch.sizeAnnounced hcut _ hm⟩
+
+/-- **The read loop terminates.**  `poll_read` is modelled with a fuel bound; in every reachable
+state the loop needs at most `data.length + 4` iterations, so the bound used by the model never
+cuts a poll short: any larger amount of fuel yields the same output and the same state. -/
+theorem read_loop_terminates (cfg : Cfg) (s : State) (h : Reachable cfg s) (n seg f : Nat)
+    (hf : readFuel s.ch ≤ f) :
+    pollRead n seg f s.rx s.ch = pollRead n seg (readFuel s.ch) s.rx s.ch :=
+  pollRead_fuel f (readFuel s.ch) s.rx s.ch (shape_reachable h).rx
+    (Nat.le_trans (need_le_readFuel s.rx s.ch) hf) (need_le_readFuel s.rx s.ch)
+
 /-! ### non-vacuity: concrete runs that meet the hypotheses above -/
 
 section Examples
@@ -476,6 +615,21 @@ example : (run exU (init exU) [.write [1, 2], .write [3], .dropTx]).lossless = f
 /-- connection cut with the announced size lost in transit: error instead of end-of-file -/
 example : ((outputs exU (init exU) [.write [1], .shutdown, .cut, .loseSize, .read 4 0, .read 4 0]).map (·.2)) =
     [.wrote 1, .done, .none, .none, .data [1], .rxErr .unexpectedEof] := by decide
+
+/-- `size_wait_after_data_end` / `ended_stream_decides`: the reader waits for the size (state
+`verifying`) only after the data stream ended; the announcement decides the wait -/
+example : (run exU (init exU) [.write [1], .flush, .dropRx]).rx.alive = false := by decide
+example : (run exU (init exU) [.write [1], .read 4 0, .shutdown, .read 4 0]).rx.phase = .idle ∧
+    ((outputs exU (init exU) [.write [1], .dropTx, .read 4 0]).map (·.2)) = [.wrote 1, .none, .rxErr .unexpectedEof] := by
+  decide
+example : ((outputs exU (init exU) [.read 4 0, .write [1], .flush, .read 4 0, .read 4 0]).map (·.2)) =
+    [.pending, .wrote 1, .done, .data [1], .pending] := by decide
+
+/-- `eof_sticky`, `short_sized_error_sticky` -/
+example : ((outputs exS (init exS) (runS ++ [.read 3 0, .dropTx, .cut, .read 3 0])).map (·.2)).drop 7 =
+    [.data [], .none, .none, .data []] := by decide
+example : ((outputs exS (init exS) [.write [1, 2], .flush, .dropTx, .read 9 0, .read 9 0, .read 9 0]).map (·.2)) =
+    [.wrote 2, .done, .none, .data [1, 2], .rxErr .unexpectedEof, .rxErr .unexpectedEof] := by decide
 
 end Examples
 
